@@ -282,6 +282,9 @@ def main(argv=None):
         if r.get('sample') is not None and len(samples) < 12:
             samples.append(r['sample'])
 
+    if os.environ.get('VERIF_DUMP_CEX'):
+        with open(os.environ['VERIF_DUMP_CEX'], 'w') as f:
+            json.dump(cexs, f)
     # ---- replay counterexamples (dedup by harness+claim, cap per harness)
     confirmed, unconfirmed, soft_unconfirmed = [], [], 0
     seen_keys = {}
